@@ -183,7 +183,11 @@ impl ServerState {
         let finished_compilation = self.finished_compilation.clone();
         let rx = self.cb_rx.clone();
         let last_compilation_state = self.last_compilation_state.clone();
+        #[cfg(fuellabs_sway_verif)]
+        let verif_id = self.verif_id();
         std::thread::spawn(move || {
+            #[cfg(fuellabs_sway_verif)]
+            crate::verif::point("worker:recv", verif_id);
             while let Ok(msg) = rx.recv() {
                 match msg {
                     TaskMessage::CompilationContext(ctx) => {
@@ -213,6 +217,8 @@ impl ServerState {
                         }
 
                         // Set the is_compiling flag to true so that the wait_for_parsing function knows that we are compiling
+                        #[cfg(fuellabs_sway_verif)]
+                        crate::verif::point("worker:is_compiling=true", verif_id);
                         is_compiling.store(true, Ordering::SeqCst);
                         match session::parse_project(
                             uri,
@@ -240,10 +246,14 @@ impl ServerState {
                                                 &mut engines_clone,
                                             );
                                         }
+                                        #[cfg(fuellabs_sway_verif)]
+                                        crate::verif::point("worker:last_state=", verif_id);
                                         *last_compilation_state.write() =
                                             LastCompilationState::Success;
                                     }
                                     None => {
+                                        #[cfg(fuellabs_sway_verif)]
+                                        crate::verif::point("worker:last_state=", verif_id);
                                         *last_compilation_state.write() =
                                             LastCompilationState::Failed;
                                     }
@@ -251,19 +261,31 @@ impl ServerState {
                             }
                             Err(err) => {
                                 tracing::error!("{}", err.to_string());
+                                #[cfg(fuellabs_sway_verif)]
+                                crate::verif::point("worker:last_state=", verif_id);
                                 *last_compilation_state.write() = LastCompilationState::Failed;
                             }
                         }
 
                         // Reset the flags to false
+                        #[cfg(fuellabs_sway_verif)]
+                        crate::verif::point("worker:is_compiling=false", verif_id);
                         is_compiling.store(false, Ordering::SeqCst);
+                        #[cfg(fuellabs_sway_verif)]
+                        crate::verif::point("worker:retrigger=false", verif_id);
                         retrigger_compilation.store(false, Ordering::SeqCst);
 
                         // Make sure there isn't any pending compilation work
+                        #[cfg(fuellabs_sway_verif)]
+                        crate::verif::point("worker:rx.is_empty?", verif_id);
                         if rx.is_empty() {
                             // finished compilation, notify waiters
+                            #[cfg(fuellabs_sway_verif)]
+                            crate::verif::point("worker:notify", verif_id);
                             finished_compilation.notify_waiters();
                         }
+                        #[cfg(fuellabs_sway_verif)]
+                        crate::verif::point("worker:recv", verif_id);
                     }
                     TaskMessage::Terminate => {
                         // If we receive a terminate message, we need to exit the thread
@@ -306,17 +328,44 @@ impl ServerState {
         loop {
             // Check both the is_compiling flag and the last_compilation_state.
             // Wait if is_compiling is true or if the last_compilation_state is Uninitialized.
+            #[cfg(fuellabs_sway_verif)]
+            crate::verif::point("wait:is_compiling?", self.verif_id());
             if !self.is_compiling.load(Ordering::SeqCst)
                 && *self.last_compilation_state.read() != LastCompilationState::Uninitialized
             {
                 // compilation is finished, lets check if there are pending compilation requests.
+                #[cfg(fuellabs_sway_verif)]
+                crate::verif::point("wait:rx.is_empty?", self.verif_id());
                 if self.cb_rx.is_empty() {
                     // no pending compilation work, safe to break.
                     break;
                 }
             }
             // We are still compiling, lets wait to be notified.
+            #[cfg(fuellabs_sway_verif)]
+            crate::verif::point("wait:notified", self.verif_id());
             self.finished_compilation.notified().await;
+        }
+    }
+
+    /// Verification hook: an opaque id of this server, passed to [`crate::verif::point`].
+    #[cfg(fuellabs_sway_verif)]
+    pub fn verif_id(&self) -> usize {
+        Arc::as_ptr(&self.is_compiling) as usize
+    }
+
+    /// Verification hook: the current values of the shared scheduling state.
+    #[cfg(fuellabs_sway_verif)]
+    pub fn verif_snapshot(&self) -> crate::verif::Snapshot {
+        crate::verif::Snapshot {
+            is_compiling: self.is_compiling.load(Ordering::SeqCst),
+            retrigger_compilation: self.retrigger_compilation.load(Ordering::SeqCst),
+            queued: self.cb_rx.len(),
+            last_compilation_state: match *self.last_compilation_state.read() {
+                LastCompilationState::Success => "Success",
+                LastCompilationState::Failed => "Failed",
+                LastCompilationState::Uninitialized => "Uninitialized",
+            },
         }
     }
 
